@@ -87,6 +87,11 @@ structure SecAttrs where
   link : Option Str
   incl : Option Str
   merged : Option Ref
+  /-- `_merged_attrs.get("definition")`: the definition `merge` has filled in from the Section
+      this one is merged with (`none` = nothing recorded; a recorded `None` behaves the same) -/
+  filledDef : Option Str := none
+  /-- `_merged_attrs.get("reference")` -/
+  filledRef : Option Str := none
   deriving DecidableEq, Repr
 
 inductive Sec (V : Type) where
@@ -133,6 +138,14 @@ def fillText (a b : Option Str) : Option Str :=
   | none => match b with
     | some [] => none
     | _ => b
+
+/-- the record kept next to `fillText` in `Section.merge`:
+    `if self.x is None and other.x is not None: self.x = other.x; filled["x"] = self.x`
+    (`old` = what `_merged_attrs` held for `x` before) -/
+def recFill (a b old : Option Str) : Option Str :=
+  match a, b with
+  | none, some _ => fillText a b
+  | _, _ => old
 
 def fillOpt {α : Type} (a b : Option α) : Option α :=
   match a with
@@ -311,7 +324,7 @@ def typeClashSecs (dsecs : List (Sec V)) : List (Sec V) → Bool
 end
 
 /-- `mine = obj.clone(); mine._merged = obj` for a Section (clone is the identity on the
-    pure tree; ids are not modelled) -/
+    pure tree, `_merged_attrs` included; ids are not modelled) -/
 def cloneMerged (r : Ref) (o : Sec V) : Sec V :=
   .mk { o.attrs with merged := some r } o.props o.secs
 
@@ -342,9 +355,13 @@ def merge (cv : Conv V) (strict : Bool) : Ref → Sec V → Sec V → Sec V × O
       -- self._merge_name_check(section)
       if typeClash d (.mk sa sprops ssecs) then (d, .raised .valueError)
       else
-      -- if self.definition is None and ...: self.definition = section.definition; same for reference
+      -- filled = dict(self._merged_attrs)
+      -- if self.definition is None and ...: self.definition = section.definition;
+      --   filled["definition"] = self.definition; same for reference; self._merged_attrs = filled
       let a1 := { d.attrs with definition := fillText d.attrs.definition sa.definition
-                               reference := fillText d.attrs.reference sa.reference }
+                               reference := fillText d.attrs.reference sa.reference
+                               filledDef := recFill d.attrs.definition sa.definition d.attrs.filledDef
+                               filledRef := recFill d.attrs.reference sa.reference d.attrs.filledRef }
       -- for obj in section: Sections first ...
       match mergeSecs cv strict r d.secs ssecs with
       | (secs', .raised e) => (.mk a1 d.props secs', .raised e)
